@@ -250,20 +250,30 @@ def r2(R, m):
         R.check(nme in m.funcs and m.funcs[nme] in m.tree.body, "C16.R2", REL, gg.lineno, "getgroup", "name %r resolves to a module-level function" % nme,
                 "getgroup(%r) would raise KeyError" % nme)
     R.check(set(names) == set(ORDERS), "C16.R2", REL, gg.lineno, "getgroup", "registry %s" % sorted(names), "registry and the checked group table differ: %s" % sorted(set(names) ^ set(ORDERS)))
-    gen = m.func("generate_group")
-    u = ast.unparse(gen)
-    R.check("if args in symcache" in u and "symcache[args] = g" in u and "for a in args" in u, "C16.R2", REL, gen.lineno, "generate_group",
-            "cache keyed by the full generator tuple; every generator added", "cache key or generator loop changed: different groups could share a cache entry")
+    gen = m.ifunc("generate_group", keep=("m_from_string",))     # a builder helper reads as if written here
+    R.shape(gen.args.vararg is not None, "C16.R2", REL, "generate_group", "generate_group(*generators)")
+    va = gen.args.vararg.arg
+    keys = [src(x.slice) for x in ast.walk(gen) if isinstance(x, ast.Subscript) and src(x.value) == "symcache"]
+    tests = [src(c.left) for c in ast.walk(gen) if isinstance(c, ast.Compare) and len(c.ops) == 1 and isinstance(c.ops[0], (ast.In, ast.NotIn)) and src(c.comparators[0]) == "symcache"]
+    R.shape(bool(keys) and bool(tests), "C16.R2", REL, "generate_group", "look-ups and stores in symcache")
+    stores = [x for x in ast.walk(gen) if isinstance(x, ast.Subscript) and src(x.value) == "symcache" and isinstance(x.ctx, ast.Store)]
+    loops = [l for l in ast.walk(gen) if isinstance(l, ast.For) and src(l.iter) == va and isinstance(l.target, ast.Name)]
+    added = [c for l in loops for c in ast.walk(l) if isinstance(c, ast.Call) and isinstance(c.func, ast.Attribute) and c.func.attr == "additem"
+             and any(isinstance(x, ast.Name) and x.id == l.target.id for x in ast.walk(c))]
+    R.check(all(k == va for k in keys + tests) and bool(stores) and bool(added) and not any(isinstance(x, (ast.Break, ast.Continue)) for l in loops for x in ast.walk(l)),
+            "C16.R2", REL, gen.lineno, "generate_group", "cache keyed by the full generator tuple; every generator added",
+            "cache key or generator loop changed: different groups could share a cache entry")
 
 
 def r3(R, m):
     R.rule("C16.R3", "find_uniq_u / find_uniq_hkls visit every operator, always apply it to the input (not the running best), keep "
                      "with a strict '>' and fall back to the input")
     for name, inp in (("find_uniq_u", None), ("find_uniq_hkls", None)):
-        fn = m.func(name)
+        fn = m.ifunc(name, keep=("op",))     # helpers inlined; while / index loops read as 'for <item> in <sequence>'
         arg0 = fn.args.args[0].arg
         grp = fn.args.args[1].arg
-        loops = [n for n in ast.walk(fn) if isinstance(n, ast.For) and src(n.iter) == "%s.group" % grp]
+        params = tuple(a.arg for a in fn.args.args)
+        loops = [n for n in ast.walk(fn) if isinstance(n, ast.For) and pyfacts.resolved_src(fn, n.iter, 3, keep=params).replace(" ", "") == "%s.group" % grp]
         R.shape(len(loops) == 1, "C16.R3", REL, name, "the loop over %s.group" % grp)
         lp = loops[0]
         R.check(not any(isinstance(x, (ast.Break, ast.Return)) for x in ast.walk(lp)) and not any(isinstance(x, ast.Continue) for x in ast.walk(lp)),
@@ -278,18 +288,32 @@ def r3(R, m):
         R.check(len(opc) == 1 and src(opc[0].args[0]) == src(lp.target) and src(opc[0].args[1]) == arg0, "C16.R3", REL, lp.lineno, name,
                 "candidate = op(o, %s)" % arg0, "the operator is applied to something other than the input (e.g. the running best): the orbit is not enumerated")
         cmpn = [c for c in ast.walk(lp) if isinstance(c, ast.Compare)]
-        R.check(len(cmpn) == 1 and isinstance(cmpn[0].ops[0], ast.Gt), "C16.R3", REL, lp.lineno, name, "keep test %s" % [src(c) for c in cmpn],
-                "the keep test must be a strict '>' against the best so far")
-        # initial best is the input itself
-        init = [a for a in fn.body if isinstance(a, ast.Assign) and src(a.targets[0]) == "uniq"]
-        R.check(len(init) == 1 and src(init[0].value) in (arg0, "%s.copy()" % arg0), "C16.R3", REL, fn.lineno, name, "initial best = input",
+        R.shape(len(cmpn) == 1 and len(cmpn[0].ops) == 1, "C16.R3", REL, name, "the single keep test inside the loop")
+        strict = isinstance(cmpn[0].ops[0], ast.Gt) or isinstance(cmpn[0].ops[0], ast.Lt)
+        R.check(strict, "C16.R3", REL, lp.lineno, name, "keep test %s" % [src(c) for c in cmpn], "the keep test must be a strict '>' against the best so far")
+        new_side, old_side = (cmpn[0].left, cmpn[0].comparators[0]) if isinstance(cmpn[0].ops[0], (ast.Gt, ast.GtE)) else (cmpn[0].comparators[0], cmpn[0].left)
+        # the returned name is the running best; it starts as the input
+        rets = [r for r in ast.walk(fn) if isinstance(r, ast.Return) and r.value is not None]
+        R.shape(len(rets) == 1, "C16.R3", REL, name, "the single return")
+        rnames = [x.id for x in ast.walk(rets[0].value) if isinstance(x, ast.Name) and x.id not in ("np", "numpy")]
+        R.shape(len(rnames) == 1, "C16.R3", REL, name, "the returned running best")
+        best = rnames[0]
+        init = [a_ for a_ in fn.body if isinstance(a_, ast.Assign) and src(a_.targets[0]) == best]
+        R.check(len(init) == 1 and src(init[0].value) in (arg0, "%s.copy()" % arg0) and init[0].lineno < lp.lineno, "C16.R3", REL, fn.lineno, name, "initial best = input",
                 "the reduction does not start from the input")
         # the compared quantity of the candidate and the stored maximum are the same function
         if name == "find_uniq_u":
             f = fn.args.args[-1].arg
-            asg = {src(a.targets[0]): src(a.value) for a in ast.walk(fn) if isinstance(a, ast.Assign) and isinstance(a.targets[0], ast.Name)}
-            R.check(asg.get("tmax") in ("%s(uniq)" % f, "t") and "%s(cand)" % f in ast.unparse(lp), "C16.R3", REL, fn.lineno, name,
-                    "score = %s(.) for both the start and the candidates" % f, "start and candidates are scored differently")
+            cand = "%s.op(%s,%s)" % (grp, src(lp.target), arg0)
+            rsl = lambda n_: pyfacts.resolved_src(fn, n_, 4, keep=params + (best, src(lp.target))).replace(" ", "")
+            okn = rsl(new_side) == "%s(%s)" % (f, cand)
+            oko = isinstance(old_side, ast.Name)
+            if oko:
+                defs_out = [a_ for a_ in fn.body if isinstance(a_, ast.Assign) and src(a_.targets[0]) == old_side.id]
+                defs_in = [a_ for a_ in ast.walk(lp) if isinstance(a_, ast.Assign) and src(a_.targets[0]) == old_side.id]
+                oko = len(defs_out) == 1 and src(defs_out[0].value).replace(" ", "") in ("%s(%s)" % (f, best), "%s(%s)" % (f, arg0)) \
+                    and len(defs_in) == 1 and rsl(defs_in[0].value) == "%s(%s)" % (f, cand)
+            R.check(okn and oko, "C16.R3", REL, fn.lineno, name, "score = %s(.) for both the start and the candidates" % f, "start and candidates are scored differently")
 
 
 def r4(R):
